@@ -77,8 +77,25 @@ class FullWorld(object):
     def endpoint(self, i):
         return self.cconn.DefaultEndPoint(self.fc.nodes[i].addr, 9042)
 
+    def use_asyncio_reactor(self):
+        """Second real reactor: AsyncioConnection on the virtual-time asyncio loop (dsim.aioloop) instead of LibevConnection."""
+        import asyncio
+        from dsim import aioloop
+        from dsim.core import SimLock
+        ar = self.M['ar']
+        set_knob(ar.AsyncioConnection, '_lock', SimLock())
+        set_knob(ar.AsyncioConnection, '_loop', None)
+        set_knob(ar.AsyncioConnection, '_loop_thread', None)
+        set_knob(ar.AsyncioConnection, '_socket_impl', self.net.module())
+        set_knob(asyncio, 'new_event_loop', aioloop.new_loop)
+        set_knob(asyncio, 'set_event_loop', lambda loop: None)
+        self.sim.probe('asyncio_reactor')
+        return ar.AsyncioConnection
+
     def make_cluster(self, contact=(0,), protocol_version=4, profile=None, **kw):
         ccl = self.ccl
+        if self.plan.get('reactor') == 'asyncio' and 'connection_class' not in kw:
+            kw['connection_class'] = self.use_asyncio_reactor()
         args = dict(contact_points=[self.endpoint(i) for i in contact], compression=False,
                     monitor_reporting_enabled=False, executor_threads=kw.pop('executor_threads', 2),
                     connect_timeout=kw.pop('connect_timeout', 5), control_connection_timeout=kw.pop('control_connection_timeout', 2.0),
